@@ -1,7 +1,9 @@
 (* C18 - property theorems only. Statements are about the Mech model of the run-time module loader
-   (Model.v: handle_import_statement, sync_impl_definitions_from_parser, register_impl_definition);
-   the proofs are in Import.v / Order.v / Inline.v.  They hold for every file system [fs], every
-   table state [t] and every [fuel] (depth bound of the private parser's transitive impl list). *)
+   (Model.v: handle_import_statement incl. the execution of a module's own imports,
+   sync_impl_definitions_from_parser, register_impl_definition) as it stands after the fix: commits
+   e75028a, 7f2ae2b, 871ed77, a650333; the proofs are in Import.v / Order.v / Inline.v.  They hold for
+   every file system [fs], every table state [t], every recursion bound [fuel] and every depth bound
+   [pf] of the private parser's transitive impl list. *)
 From Coq Require Import List String Ascii Bool Arith Permutation.
 Import ListNotations.
 From Cb Require Import C18.Model C18.Import C18.Order C18.Inline.
@@ -11,34 +13,53 @@ Local Open Scope list_scope.
 (* ------------------------------------------------------------------ exactly the exports *)
 
 (* Whatever binding (function, struct, interface, typedef, variable, enum, destructor) differs after
-   `import p;` was written by an exported declaration of the file p resolves to, under its own name
-   or `p.name` - or by an impl block held by that file's parser (impl blocks are registered whether
-   or not they are exported: see hidden_impl_invisible_refuted). *)
-Theorem only_exports_visible : forall fuel fs t p m t' g k,
-  mem p (loaded t) = false -> resolve fs p = Some m -> handle_import fuel fs t p = Ok t' ->
-  tlookup g k t' <> tlookup g k t ->
-  (exists d, In (SDecl true d) m /\ In (g, k) (decl_keys p d)) \/
-  (exists d, In d (parser_impls fuel fs m) /\
-     ((g = TF /\ In k (map fst (method_binds d))) \/ (g = TD /\ k = im_struct d /\ im_dtor d <> None))).
+   `import p;` was written by a module q that this import loaded (p itself or a module reached through
+   the imports of loaded modules): by an exported declaration of q's file, under its own name or
+   `q.name`, or by an impl block held by that file's parser (impl blocks are registered whether or not
+   they are exported: hidden_impl_invisible_refuted). *)
+Theorem only_exports_visible : forall fuel pf fs t p t' g k,
+  handle_import fuel pf fs t p = Ok t' -> tlookup g k t' <> tlookup g k t ->
+  exists q m, mem q (loaded t) = false /\ mem q (loaded t') = true /\ resolve fs q = Some m /\
+    ((exists d, In (SDecl true d) m /\ In (g, k) (decl_keys q d)) \/
+     (exists d, In d (parser_impls pf fs m) /\
+        ((g = TF /\ In k (map fst (method_binds d))) \/ (g = TD /\ k = im_struct d /\ im_dtor d <> None)))).
 Proof. exact only_exports_visible_l. Qed.
 Print Assumptions only_exports_visible.
 
-(* readable instance: a function name that no exported function of the module carries (plain or
-   qualified) and that is no mangled method key is exactly as (un)callable after the import as before *)
-Theorem hidden_function_not_callable : forall fuel fs t p m t' n,
-  mem p (loaded t) = false -> resolve fs p = Some m -> handle_import fuel fs t p = Ok t' ->
-  (forall n0 b, In (SDecl true (DFunc n0 b)) m -> n <> n0 /\ n <> qualified p n0) ->
-  (forall d, In d (parser_impls fuel fs m) -> ~ In n (map fst (method_binds d))) ->
+(* readable instance: a function name that no exported function of any newly loaded module carries
+   (plain or qualified) and that is no mangled method key is exactly as (un)callable as before *)
+Theorem hidden_function_not_callable : forall fuel pf fs t p t' n,
+  handle_import fuel pf fs t p = Ok t' ->
+  (forall q m, mem q (loaded t) = false -> mem q (loaded t') = true -> resolve fs q = Some m ->
+     (forall n0 b, In (SDecl true (DFunc n0 b)) m -> n <> n0 /\ n <> qualified q n0) /\
+     (forall d, In d (parser_impls pf fs m) -> ~ In n (map fst (method_binds d)))) ->
   lookup n (funcs t') = lookup n (funcs t).
 Proof. exact hidden_function_l. Qed.
 Print Assumptions hidden_function_not_callable.
 
-(* every exported declaration is bound after a successful import (under name and p.name) *)
-Theorem exports_become_visible : forall fuel fs t p m t' d g k,
-  mem p (loaded t) = false -> resolve fs p = Some m -> handle_import fuel fs t p = Ok t' ->
+(* every exported declaration of the imported module is bound afterwards (under name and p.name) *)
+Theorem exports_become_visible : forall fuel pf fs t p m t' d g k,
+  mem p (loaded t) = false -> resolve fs p = Some m -> handle_import fuel pf fs t p = Ok t' ->
   In (SDecl true d) m -> In (g, k) (decl_keys p d) -> tlookup g k t' <> None.
 Proof. exact exports_become_visible_l. Qed.
 Print Assumptions exports_become_visible.
+
+(* ... and the same holds for EVERY module the import loaded, directly or through other modules: its
+   own imports are loaded and all its exports are bound - so an exported definition finds the exported
+   names of the modules its file imports (formerly finding #35 / C18-transitive-import) *)
+Theorem loaded_modules_are_complete : forall fuel pf fs t p t' q,
+  handle_import fuel pf fs t p = Ok t' -> mem q (loaded t) = false -> mem q (loaded t') = true ->
+  exists m, resolve fs q = Some m /\
+    (forall r, In (SImport r) m -> mem r (loaded t') = true) /\
+    (forall d g k, In (SDecl true d) m -> In (g, k) (decl_keys q d) -> tlookup g k t' <> None).
+Proof. exact loaded_modules_complete_l. Qed.
+Print Assumptions loaded_modules_are_complete.
+
+Theorem transitive_imports_loaded : forall fuel pf fs t p m t' r,
+  mem p (loaded t) = false -> resolve fs p = Some m -> handle_import fuel pf fs t p = Ok t' ->
+  In (SImport r) m -> mem r (loaded t') = true.
+Proof. exact transitive_imports_loaded_l. Qed.
+Print Assumptions transitive_imports_loaded.
 
 (* REFUTED on the faithful model (finding C18-hidden-impl-visible): an impl block WITHOUT `export`
    is registered all the same - its method becomes callable and its constructor is found *)
@@ -47,7 +68,7 @@ Theorem hidden_impl_invisible_refuted : exists fs t,
                          SDecl true (DInterface "IA" ["getx"]);
                          SDecl false (DImpl (mkImpl "IA" "SA" [("getx", 7)] [] None []));
                          SDecl false (DImpl (mkImpl "" "SA" [] [(1, 8)] None []))] /\
-  load 3 fs ["a"] empty_tables = Ok t /\
+  load 3 3 fs ["a"] empty_tables = Ok t /\
   lookup (method_key "SA" "getx") (funcs t) = Some 7 /\ find_ctor "SA" 1 (ctors t) = Some 8.
 Proof.
   exists [("a.cb", [SDecl true (DStruct "SA" (mkSdef false [mkMember "x" None]));
@@ -60,46 +81,62 @@ Print Assumptions hidden_impl_invisible_refuted.
 
 (* ------------------------------------------------------------------ once *)
 
-Theorem import_idempotent : forall fuel fs p r t,
-  load fuel fs (p :: p :: r) t = load fuel fs (p :: r) t.
+Theorem import_idempotent : forall fuel pf fs p r t,
+  load fuel pf fs (p :: p :: r) t = load fuel pf fs (p :: r) t.
 Proof. exact load_twice. Qed.
 Print Assumptions import_idempotent.
 
-(* a repeated import anywhere later in the sequence (directly, or because several files of a diamond
-   name the same module) is a no-op: the two sequences give the very same result *)
-Theorem import_again_is_noop : forall fuel fs p l1 l2 t,
-  In p l1 -> load fuel fs (l1 ++ p :: l2) t = load fuel fs (l1 ++ l2) t.
+(* a repeated import anywhere later in the sequence is a no-op: the very same result *)
+Theorem import_again_is_noop : forall fuel pf fs p l1 l2 t,
+  In p l1 -> load fuel pf fs (l1 ++ p :: l2) t = load fuel pf fs (l1 ++ l2) t.
 Proof. exact load_again. Qed.
 Print Assumptions import_again_is_noop.
 
-Theorem loaded_module_changes_nothing : forall fuel fs t p t',
-  mem p (loaded t) = true -> handle_import fuel fs t p = Ok t' -> t' = t.
+(* the same for a module that was loaded through another module (a diamond, or a program importing
+   what one of its modules imports): it is loaded once, the later import changes nothing *)
+Theorem loaded_module_changes_nothing : forall fuel pf fs t p t',
+  mem p (loaded t) = true -> handle_import fuel pf fs t p = Ok t' -> t' = t.
 Proof. exact loaded_import_changes_nothing. Qed.
 Print Assumptions loaded_module_changes_nothing.
 
-Theorem successful_import_marks_loaded : forall fuel fs t p t',
-  handle_import fuel fs t p = Ok t' -> mem p (loaded t') = true.
+Theorem successful_import_marks_loaded : forall fuel pf fs t p t',
+  handle_import fuel pf fs t p = Ok t' -> mem p (loaded t') = true.
 Proof. exact handle_import_marks. Qed.
 Print Assumptions successful_import_marks_loaded.
 
+(* the recursion bound of the model is immaterial: a result other than "bound exhausted" is final *)
+Theorem recursion_bound_immaterial : forall fuel pf fs t p,
+  no_depth (handle_import fuel pf fs t p) -> handle_import (S fuel) pf fs t p = handle_import fuel pf fs t p.
+Proof. exact fuel_monotone. Qed.
+Print Assumptions recursion_bound_immaterial.
+
 (* ------------------------------------------------------------------ independent of order *)
 
-(* Any permutation of a duplicate-free list of not-yet-loaded modules whose footprints (bound names;
-   for impl blocks and constructors: the struct they belong to) are pairwise disjoint yields tables
-   that are equal as maps - or an error in both orders. *)
-Theorem import_order_independent : forall fuel fs l1 l2 t,
-  Permutation l1 l2 -> NoDup l1 -> (forall p, In p l1 -> mem p (loaded t) = false) ->
-  independent fuel fs l1 ->
-  req (load fuel fs l1 t) (load fuel fs l2 t).
+(* Two successful import sequences that are permutations of each other load the same set of modules
+   (those reachable through not-yet-loaded modules) ... *)
+Theorem same_modules_loaded : forall fuel pf fs l1 l2 t t1 t2,
+  Permutation l1 l2 -> load fuel pf fs l1 t = Ok t1 -> load fuel pf fs l2 t = Ok t2 ->
+  forall q, mem q (loaded t1) = true -> mem q (loaded t2) = true.
+Proof. exact load_same_modules. Qed.
+Print Assumptions same_modules_loaded.
+
+(* ... and, when the newly loaded modules (all inside U) have pairwise disjoint footprints (bound
+   names; impl blocks: per struct; constructors: per struct and arity), tables equal as maps. *)
+Theorem import_order_independent : forall fuel pf fs U l1 l2 t t1 t2,
+  Permutation l1 l2 -> load fuel pf fs l1 t = Ok t1 -> load fuel pf fs l2 t = Ok t2 ->
+  independent pf fs U ->
+  (forall q, mem q (loaded t1) = true -> mem q (loaded t) = true \/ In q U) ->
+  teq t1 t2.
 Proof. exact import_order_independent_l. Qed.
 Print Assumptions import_order_independent.
 
 (* the same for modules that share registration steps: two importers of a common module both hand
-   over its impl blocks (a diamond); identical steps commute, so such lists may be permuted too *)
-Theorem import_order_independent_diamond : forall fuel fs l1 l2 t,
-  Permutation l1 l2 -> NoDup l1 -> (forall p, In p l1 -> mem p (loaded t) = false) ->
-  compatible fuel fs l1 ->
-  req (load fuel fs l1 t) (load fuel fs l2 t).
+   over its impl blocks (a diamond); identical steps commute *)
+Theorem import_order_independent_diamond : forall fuel pf fs U l1 l2 t t1 t2,
+  Permutation l1 l2 -> load fuel pf fs l1 t = Ok t1 -> load fuel pf fs l2 t = Ok t2 ->
+  compatible pf fs U ->
+  (forall q, mem q (loaded t1) = true -> mem q (loaded t) = true \/ In q U) ->
+  teq t1 t2.
 Proof. exact import_order_compatible_l. Qed.
 Print Assumptions import_order_independent_diamond.
 
@@ -122,102 +159,70 @@ Print Assumptions later_registrations_respect_equality.
 
 (* ------------------------------------------------------------------ imported = inlined (table level) *)
 
-(* `import p;` leaves the tables as if the exported declarations of the file (and the impl blocks its
-   parser holds) had been written in the importing file: equal on every unqualified function and
-   variable name, and literally equal struct / interface / typedef / enum / impl / constructor /
-   destructor tables; a registration error arises in one exactly if in the other.  Side conditions:
-   exported structs have no array members and impl blocks no static variables (the two refuted
-   statements below), names are identifiers, const variables have initialisers. *)
-Theorem imported_like_inlined : forall fuel fs t p m,
-  mem p (loaded t) = false -> resolve fs p = Some m ->
-  (forall d, In (SDecl true d) m -> decl_ok d) ->
-  (forall d, In d (parser_impls fuel fs m) -> im_statics d = []) ->
-  rsim (handle_import fuel fs t p) (run_ops (inline_ops fuel fs m) t).
+(* `import p;` leaves the tables as if every file it loads had been pasted once, where the loader
+   visits it, as declarations of the importing file (exported declarations without `export`, then the
+   impl blocks its parser holds): equal on every unqualified function and variable name, literally
+   equal struct (array members included) / interface / typedef / enum / impl / constructor /
+   destructor / impl-static tables; an error arises in one exactly if in the other.  Side conditions:
+   names are identifiers and const variables have initialisers. *)
+Theorem imported_like_inlined : forall fuel pf fs t p, names_ok fs ->
+  rsim (handle_import fuel pf fs t p) (handle_inline fuel pf fs t p).
 Proof. exact imported_like_inlined_l. Qed.
 Print Assumptions imported_like_inlined.
-
-(* REFUTED (finding C18-struct-array-member): an exported struct with an array member is registered
-   without the array information; written locally it keeps it *)
-Theorem imported_struct_like_inlined_refuted : exists fs t t',
-  let wa := mkSdef false [mkMember "v" (Some 3); mkMember "k" None] in
-  resolve fs "arr" = Some [SDecl true (DStruct "WA" wa)] /\
-  load 3 fs ["arr"] empty_tables = Ok t /\
-  run_ops (inline_ops 3 fs [SDecl true (DStruct "WA" wa)]) empty_tables = Ok t' /\
-  lookup "WA" (structs t') = Some wa /\
-  lookup "WA" (structs t) = Some (mkSdef false [mkMember "v" None; mkMember "k" None]).
-Proof.
-  exists [("arr.cb", [SDecl true (DStruct "WA" (mkSdef false [mkMember "v" (Some 3); mkMember "k" None]))])].
-  do 2 eexists. vm_compute. repeat split.
-Qed.
-Print Assumptions imported_struct_like_inlined_refuted.
-
-(* REFUTED (finding C18-impl-static-not-imported): static variables of an impl block exist when the
-   block is written in the running file, not when it arrives through an import *)
-Theorem imported_impl_statics_like_inlined_refuted : exists fs t t',
-  let m := [SDecl true (DStruct "SS" (mkSdef false [mkMember "x" None]));
-            SDecl true (DInterface "IS" ["tick"]);
-            SDecl true (DImpl (mkImpl "IS" "SS" [("tick", 4)] [] None ["n"]))] in
-  resolve fs "ms" = Some m /\
-  load 3 fs ["ms"] empty_tables = Ok t /\ run_ops (inline_ops 3 fs m) empty_tables = Ok t' /\
-  istatics t = [] /\ istatics t' = [("IS", ("SS", "n"))].
-Proof.
-  exists [("ms.cb", [SDecl true (DStruct "SS" (mkSdef false [mkMember "x" None]));
-                    SDecl true (DInterface "IS" ["tick"]);
-                    SDecl true (DImpl (mkImpl "IS" "SS" [("tick", 4)] [] None ["n"]))])].
-  do 2 eexists. vm_compute. repeat split.
-Qed.
-Print Assumptions imported_impl_statics_like_inlined_refuted.
-
-(* REFUTED (finding C18-transitive-import, DESIGN section 7 #35): the `import` statements of a module
-   are not executed when it is loaded, so what its exported functions call is not bound *)
-Theorem transitive_imports_loaded_refuted : exists fs t,
-  resolve fs "lib.left" = Some [SImport "lib.base"; SDecl true (DFunc "left" 1)] /\
-  resolve fs "lib.base" = Some [SDecl true (DFunc "bump" 2)] /\
-  load 5 fs ["lib.left"] empty_tables = Ok t /\
-  lookup "left" (funcs t) = Some 1 /\ lookup "bump" (funcs t) = None /\ mem "lib.base" (loaded t) = false.
-Proof.
-  exists [("lib/left.cb", [SImport "lib.base"; SDecl true (DFunc "left" 1)]);
-          ("lib/base.cb", [SDecl true (DFunc "bump" 2)])].
-  eexists. vm_compute. repeat split.
-Qed.
-Print Assumptions transitive_imports_loaded_refuted.
 
 (* ------------------------------------------------------------------ found via the dotted path *)
 
 Theorem dotted_path_resolution : forall segs fs m,
   (forall s, In s segs -> contains "." s = false) ->
   let p := String.concat "." segs in
-  contains ".cb" p = false -> contains "." p = true -> contains "/" p = false -> contains ".." p = false ->
+  contains "." p = true -> contains "/" p = false -> contains ".." p = false ->
   lookup (String.concat "/" segs +++ ".cb") fs = Some m ->
   resolve fs p = Some m.
 Proof. exact dotted_path_resolution_l. Qed.
 Print Assumptions dotted_path_resolution.
 
 Theorem undotted_path_resolution : forall p fs m,
-  contains "." p = false -> lookup (p +++ ".cb") fs = Some m -> resolve fs p = Some m.
+  contains "." p = false -> contains "/" p = false -> lookup (p +++ ".cb") fs = Some m -> resolve fs p = Some m.
 Proof. exact undotted_path_resolution_l. Qed.
 Print Assumptions undotted_path_resolution.
 
-Theorem missing_module_is_an_error : forall fuel fs t p,
+Theorem missing_module_is_an_error : forall fuel pf fs t p,
   mem p (loaded t) = false -> resolve fs p = None ->
-  handle_import fuel fs t p = Err (EOpen p (file_path_of p)).
+  handle_import (S fuel) pf fs t p = Err (EOpen p (file_path_of p)).
 Proof. exact unresolved_is_error. Qed.
 Print Assumptions missing_module_is_an_error.
 
-(* REFUTED (finding C18-dotcb-component): a path component beginning with "cb" makes the loader take
-   the dotted text itself as the file name *)
-Theorem dotted_path_resolution_refuted : exists fs m,
-  lookup "lib/cbits/m.cb" fs = Some m /\ file_path_of "lib.cbits.m" = "lib.cbits.m" /\
-  resolve fs "lib.cbits.m" = None.
-Proof. exists [("lib/cbits/m.cb", [SDecl true (DFunc "cf" 1)])]. eexists. vm_compute. repeat split. Qed.
-Print Assumptions dotted_path_resolution_refuted.
+(* ------------------------------------------------------------------ the former refutation witnesses *)
+(* (known findings C18-struct-array-member, C18-impl-static-not-imported, C18-transitive-import,
+   C18-dotcb-component before the repairs): on the model of the repaired code each now behaves as the
+   property demands *)
+Theorem former_witnesses_repaired :
+  (* an exported struct with an array member keeps the array shape *)
+  (let wa := mkSdef false [mkMember "v" (Some 3); mkMember "k" None] in
+   exists t, load 3 3 [("arr.cb", [SDecl true (DStruct "WA" wa)])] ["arr"] empty_tables = Ok t /\
+             lookup "WA" (structs t) = Some wa) /\
+  (* the static variable of an imported impl block exists *)
+  (exists t, load 3 3 [("ms.cb", [SDecl true (DStruct "SS" (mkSdef false [mkMember "x" None]));
+                                  SDecl true (DInterface "IS" ["tick"]);
+                                  SDecl true (DImpl (mkImpl "IS" "SS" [("tick", 4)] [] None ["n"]))])]
+                   ["ms"] empty_tables = Ok t /\ istatics t = [("IS", ("SS", "n"))]) /\
+  (* a module's own import is loaded with it *)
+  (exists t, load 5 5 [("lib/left.cb", [SImport "lib.base"; SDecl true (DFunc "left" 1)]);
+                       ("lib/base.cb", [SDecl true (DFunc "bump" 2)])] ["lib.left"] empty_tables = Ok t /\
+             lookup "left" (funcs t) = Some 1 /\ lookup "bump" (funcs t) = Some 2 /\
+             mem "lib.base" (loaded t) = true) /\
+  (* a path component beginning with "cb" *)
+  (file_path_of "lib.cbits.m" = "lib/cbits/m.cb" /\
+   resolve [("lib/cbits/m.cb", [SDecl true (DFunc "cf" 1)])] "lib.cbits.m" = Some [SDecl true (DFunc "cf" 1)]).
+Proof. vm_compute. repeat split; eexists; repeat split. Qed.
+Print Assumptions former_witnesses_repaired.
 
 (* ------------------------------------------------------------------ non-vacuity *)
 Definition ex_fs : fsys :=
   [("d1/a.cb", [SDecl true (DFunc "fa" 1); SDecl false (DFunc "ha" 2);
-                SDecl true (DStruct "SA" (mkSdef false [mkMember "x" None]));
+                SDecl true (DStruct "SA" (mkSdef false [mkMember "x" None; mkMember "v" (Some 2)]));
                 SDecl true (DInterface "IA" ["ma"]);
-                SDecl true (DImpl (mkImpl "IA" "SA" [("ma", 3)] [(1, 4)] (Some 5) []))]);
+                SDecl true (DImpl (mkImpl "IA" "SA" [("ma", 3)] [(1, 4)] (Some 5) ["sn"]))]);
    ("d1/d2/b.cb", [SImport "d1.a"; SDecl true (DFunc "fb" 6); SDecl true (DEnum "EB" [("X", 1)]);
                    SDecl true (DVar "KB" true (Some 7))]);
    ("c.cb", [SImport "d1.a"; SDecl true (DTypedef "TC" "int"); SDecl false (DVar "HC" true (Some 8))])].
@@ -225,13 +230,13 @@ Definition ex_fs : fsys :=
 Definition ex_fs2 : fsys :=
   [("x.cb", [SDecl true (DFunc "fx" 1); SDecl true (DStruct "SX" (mkSdef false [mkMember "x" None]));
              SDecl true (DImpl (mkImpl "" "SX" [] [(1, 4)] None []))]);
-   ("sub/y.cb", [SDecl true (DFunc "fy" 2); SDecl true (DEnum "EY" [("A", 1)])]);
+   ("sub/y.cb", [SImport "x"; SDecl true (DFunc "fy" 2); SDecl true (DEnum "EY" [("A", 1)])]);
    ("z.cb", [SDecl true (DVar "KZ" true (Some 3)); SDecl false (DFunc "fx" 9)])].
 
-Example independence_hypothesis_satisfiable : independent 4 ex_fs2 ["x"; "sub.y"; "z"].
+Example independence_hypothesis_satisfiable : independent 4 ex_fs2 ["x"; "z"].
 Proof.
   intros p q Hp Hq Hne x Hx Hy. simpl in Hp, Hq.
-  destruct Hp as [<-|[<-|[<-|[]]]]; destruct Hq as [<-|[<-|[<-|[]]]]; try congruence;
+  destruct Hp as [<-|[<-|[]]]; destruct Hq as [<-|[<-|[]]]; try congruence;
     vm_compute in Hx; vm_compute in Hy;
     repeat (destruct Hx as [Hx|Hx]; [subst x; repeat (destruct Hy as [Hy|Hy]; [discriminate|]); tauto|]); tauto.
 Qed.
@@ -240,19 +245,25 @@ Qed.
 Example diamond_is_compatible : compatible 4 ex_fs ["d1.a"; "d1.d2.b"; "c"].
 Proof. apply compatibleb_sound. vm_compute. reflexivity. Qed.
 
-Example permutations_agree :
-  req (load 4 ex_fs ["d1.a"; "d1.d2.b"; "c"] empty_tables) (load 4 ex_fs ["c"; "d1.d2.b"; "d1.a"] empty_tables).
+(* importing only the two tips of the diamond loads d1.a through them, once, in either order *)
+Example permutations_agree : exists t1 t2,
+  load 4 4 ex_fs ["d1.d2.b"; "c"] empty_tables = Ok t1 /\ load 4 4 ex_fs ["c"; "d1.d2.b"] empty_tables = Ok t2 /\
+  teq t1 t2 /\ mem "d1.a" (loaded t1) = true.
 Proof.
-  apply import_order_independent_diamond.
-  - apply Permutation_rev with (l := ["d1.a"; "d1.d2.b"; "c"]).
-  - repeat constructor; simpl; intuition discriminate.
-  - intros p _. reflexivity.
-  - exact diamond_is_compatible.
+  do 2 eexists. split; [vm_compute; reflexivity|]. split; [vm_compute; reflexivity|]. split.
+  - eapply (import_order_independent_diamond 4 4 ex_fs ["d1.a"; "d1.d2.b"; "c"] ["d1.d2.b"; "c"] ["c"; "d1.d2.b"] empty_tables).
+    + apply perm_swap.
+    + vm_compute. reflexivity.
+    + vm_compute. reflexivity.
+    + exact diamond_is_compatible.
+    + intros q Hq. right. apply mem_true_iff in Hq. vm_compute in Hq.
+      repeat (destruct Hq as [<-|Hq]; [simpl; tauto|]). destruct Hq.
+  - vm_compute. reflexivity.
 Qed.
 
 Example diamond_example : exists t,
-  load 4 ex_fs ["d1.d2.b"; "c"; "d1.a"; "c"; "d1.a"] empty_tables = Ok t /\
-  load 4 ex_fs ["d1.d2.b"; "c"; "d1.a"] empty_tables = Ok t /\
+  load 4 4 ex_fs ["d1.d2.b"; "c"; "d1.a"; "c"; "d1.a"] empty_tables = Ok t /\
+  load 4 4 ex_fs ["d1.d2.b"; "c"] empty_tables = Ok t /\
   lookup "fa" (funcs t) = Some 1 /\ lookup "ha" (funcs t) = None /\ lookup "d1.a.fa" (funcs t) = Some 1 /\
   lookup "SA::ma" (funcs t) = Some 3 /\ find_ctor "SA" 1 (ctors t) = Some 4 /\
   lookup "HC" (vars t) = None /\ lookup "KB" (vars t) = Some (true, Some 7).
